@@ -12,21 +12,38 @@
 (* verify each position and that the order survives the split by account kind.  Hash-tree-roots   *)
 (* and the BLS pairing check are computed in Go (trusted base) and enter the traces as booleans.  *)
 (*                                                                                                *)
-(* One action per interface call of the Go code:                                                  *)
-(*   Call(c)          a duty service calls one of the Sign* methods                               *)
-(*   FetchDomain      domainProvider.Domain / GenesisDomain (may fail)                            *)
-(*   RefetchDomain    the same request again (the per-account path of SignBeaconAttestations)     *)
-(*   SignGroup(g)     one of the two groups produced by the split by account kind is signed       *)
+(* The environment is a HISTORY: the signer is one long-lived service that serves a sequence of    *)
+(* requests r = 1..NReq (any operations, any epochs - in particular on both sides of the epoch at  *)
+(* which the chain forks, where the fork version and hence EVERY domain changes), and the requests *)
+(* may OVERLAP: the domain provider is a remote consensus client whose reply is delayed            *)
+(* arbitrarily, so any number of other requests can start and finish between a request's           *)
+(* FetchDomain and its DomainResp.  The property is per request and does not mention the history:  *)
+(* whatever happened before or happens concurrently, every returned signature is over the signing  *)
+(* root built with the domain of the request's OWN type and epoch.  The protocol specified here is *)
+(* memoryless; an implementation may remember domains, but only transparently (Recall).            *)
+(*                                                                                                *)
+(* One action per interface call of the Go code (r = the request it belongs to):                  *)
+(*   Call(r, c)       a duty service calls one of the Sign* methods                               *)
+(*   FetchDomain(r)   domainProvider.Domain / GenesisDomain is called (trace event DomainReq)     *)
+(*   RefetchDomain(r) the same request again (the per-account path of SignBeaconAttestations)     *)
+(*   DomainResp(r)    the provider's reply arrives (may be an error), arbitrarily late            *)
+(*   Recall(r)        the domain is obtained without asking the provider (a cache); allowed only  *)
+(*                    if it is exactly what the provider would answer for THIS request            *)
+(*   SignGroup(r, g)  one of the two groups produced by the split by account kind is signed       *)
 (*                    (account.Sign / SignGeneric / SignGenericMulti / SignBeaconAttestation(s) / *)
 (*                    SignBeaconProposal) and its signatures are put back through the index map   *)
-(*   SignerFails      a signer call returns an error                                              *)
-(*   Return, ReturnErr                                                                            *)
+(*   SignerFails(r)   a signer call returns an error                                              *)
+(*   Return(r), ReturnErr(r)                                                                      *)
 EXTENDS Integers, Sequences, FiniteSets, TLC
 
 CONSTANTS SlotsPerEpoch,   \* 32
           Slots,           \* slots a request can be for
           GivenEpochs,     \* epochs handed to SignSyncCommitteeRoots
-          MaxBatch         \* longest batch
+          MaxBatch,        \* longest batch
+          NReq,            \* number of requests in one history of the service
+          ForkEpochs       \* epochs at which the chain's fork may activate (one per history)
+
+Rids == 1..NReq
 
 -----------------------------------------------------------------------------
 (* The table: operation -> domain type, epoch rule, message container, batch or single.           *)
@@ -123,8 +140,18 @@ MsgOf(c, i) == [container |-> SigSpec[c.op].msg,
                 epoch     |-> DutyEpoch(c),
                 variant   |-> IF SigSpec[c.op].msg \in PerIndexMsg THEN i ELSE 0]
 
-\* an abstract signature: who, what, under which domain
-Sig(c, i) == [key |-> <<i, VerKey(c.kinds[i])>>, msg |-> MsgOf(c, i), dom |-> DomainReq(c)]
+-----------------------------------------------------------------------------
+(* The chain: one fork, activating at epoch f.  compute_domain(type, fork_version(epoch), root)    *)
+(* depends on the epoch only through the fork version, so domains are distinct across the fork    *)
+(* and equal on the same side of it; the builder's genesis domain does not depend on f.           *)
+ForkVersion(e, f) == IF e < f THEN "old" ELSE "new"
+
+\* the domain VALUE the chain defines for domain request q
+DomainValue(q, f) == [type |-> q.type, ver |-> IF q.genesis THEN "genesis" ELSE ForkVersion(q.epoch, f)]
+NoDomain == [type |-> "none", ver |-> "none"]
+
+\* an abstract signature: who, what, under which domain value
+Sig(c, i, d) == [key |-> <<i, VerKey(c.kinds[i])>>, msg |-> MsgOf(c, i), dom |-> d]
 Absent == [key |-> <<0, "none">>]
 
 ValidCall(c) ==
@@ -146,124 +173,170 @@ Calls == {c \in [op : Ops, slot : Slots, epoch : GivenEpochs, kinds : EnvBatches
 NoCall == [op |-> "none"]
 
 -----------------------------------------------------------------------------
-VARIABLES pc,        \* "idle" | "domain" | "sign" | "failed" | "done" | "error"
-          req,       \* the request being served
-          domreqs,   \* domain requests made so far (sequence)
-          signed,    \* function: positions signed so far -> abstract signature (or Absent)
-          result     \* the reply: sequence of abstract signatures, <<>> before / on error
+VARIABLES fork,      \* the epoch at which the chain of this history forks
+          pc,        \* per request: "idle" | "called" | "waiting" (provider call outstanding) | "sign" |
+                     \*              "failed" | "done" | "error"
+          req,       \* per request: the request
+          domreqs,   \* per request: the domain requests it made so far (sequence)
+          dom,       \* per request: the domain value it holds (latest reply / recalled), NoDomain before
+          signed,    \* per request: function positions signed so far -> abstract signature (or Absent)
+          result     \* per request: the reply: sequence of abstract signatures, <<>> before / on error
 
-vars == <<pc, req, domreqs, signed, result>>
+vars == <<fork, pc, req, domreqs, dom, signed, result>>
 
 EmptyFn == [i \in {} |-> Absent]
 
 Init ==
-    /\ pc = "idle"
-    /\ req = NoCall
-    /\ domreqs = <<>>
-    /\ signed = EmptyFn
-    /\ result = <<>>
+    /\ fork \in ForkEpochs
+    /\ pc = [r \in Rids |-> "idle"]
+    /\ req = [r \in Rids |-> NoCall]
+    /\ domreqs = [r \in Rids |-> <<>>]
+    /\ dom = [r \in Rids |-> NoDomain]
+    /\ signed = [r \in Rids |-> EmptyFn]
+    /\ result = [r \in Rids |-> <<>>]
 
-Call(c) ==
-    /\ pc = "idle"
+\* requests are numbered in the order in which they are made
+Call(r, c) ==
+    /\ pc[r] = "idle"
+    /\ \A q \in Rids : q < r => pc[q] # "idle"
     /\ ValidCall(c)
-    /\ pc' = "domain"
-    /\ req' = c
-    /\ UNCHANGED <<domreqs, signed, result>>
+    /\ pc' = [pc EXCEPT ![r] = "called"]
+    /\ req' = [req EXCEPT ![r] = c]
+    /\ UNCHANGED <<fork, domreqs, dom, signed, result>>
 
-FetchDomain ==
-    /\ pc = "domain"
-    /\ domreqs' = Append(domreqs, DomainReq(req))
-    /\ pc' = IF req.fail = "domain" THEN "failed" ELSE "sign"
-    /\ UNCHANGED <<req, signed, result>>
+\* the request reaches the domain provider ...
+FetchDomain(r) ==
+    /\ pc[r] = "called"
+    /\ domreqs' = [domreqs EXCEPT ![r] = Append(@, DomainReq(req[r]))]
+    /\ pc' = [pc EXCEPT ![r] = "waiting"]
+    /\ UNCHANGED <<fork, req, dom, signed, result>>
 
-RefetchDomain ==
-    /\ pc = "sign"
-    /\ Len(domreqs) <= Len(req.kinds)
-    /\ domreqs' = Append(domreqs, DomainReq(req))
-    /\ UNCHANGED <<pc, req, signed, result>>
+RefetchDomain(r) ==
+    /\ pc[r] = "sign"
+    /\ Len(domreqs[r]) <= Len(req[r].kinds)
+    /\ domreqs' = [domreqs EXCEPT ![r] = Append(@, DomainReq(req[r]))]
+    /\ pc' = [pc EXCEPT ![r] = "waiting"]
+    /\ UNCHANGED <<fork, req, dom, signed, result>>
 
-\* the signature put at position i by a signer call that was handed (account i, message i, domain)
-Produced(c, i) == IF c.fail = "nilsig" /\ c.failidx = i THEN Absent ELSE Sig(c, i)
+\* ... whose reply arrives whenever it pleases: every action of every other request is enabled in
+\* between.  The reply is the chain's domain for the request that was made.
+DomainResp(r) ==
+    /\ pc[r] = "waiting"
+    /\ IF req[r].fail = "domain"
+       THEN /\ pc' = [pc EXCEPT ![r] = "failed"]
+            /\ UNCHANGED dom
+       ELSE /\ pc' = [pc EXCEPT ![r] = "sign"]
+            /\ dom' = [dom EXCEPT ![r] = DomainValue(domreqs[r][Len(domreqs[r])], fork)]
+    /\ UNCHANGED <<fork, req, domreqs, signed, result>>
+
+\* the domain is produced from memory instead: transparent or not at all - it is the chain's domain for
+\* the type and epoch of THIS request, whatever was asked, answered or stored for other requests
+Recall(r) ==
+    /\ pc[r] = "called"
+    /\ pc' = [pc EXCEPT ![r] = "sign"]
+    /\ dom' = [dom EXCEPT ![r] = DomainValue(DomainReq(req[r]), fork)]
+    /\ UNCHANGED <<fork, req, domreqs, signed, result>>
+
+\* the signature put at position i by a signer call that was handed (account i, message i, domain d)
+Produced(c, i, d) == IF c.fail = "nilsig" /\ c.failidx = i THEN Absent ELSE Sig(c, i, d)
 
 \* a signer call covering the positions in idx (a sequence without repetitions): the general step,
 \* the property does not prescribe how positions are grouped into calls
-SignSome(idx) ==
-    /\ pc = "sign"
-    /\ req.fail # "signer"
+SignSome(r, idx) ==
+    /\ pc[r] = "sign"
+    /\ req[r].fail # "signer"
     /\ Len(idx) >= 1
     /\ \A j, k \in 1..Len(idx) : j # k => idx[j] # idx[k]
-    /\ Range(idx) \subseteq (1..Len(req.kinds)) \ DOMAIN signed
-    /\ LET sigs == Map(LAMBDA i : Produced(req, i), idx)   \* what the group call returns, in group order
-       IN signed' = [i \in DOMAIN signed \cup Range(idx) |->
-                        IF i \in DOMAIN signed THEN signed[i]
-                        ELSE sigs[CHOOSE j \in 1..Len(idx) : idx[j] = i]]   \* the index map
-    /\ UNCHANGED <<pc, req, domreqs, result>>
+    /\ Range(idx) \subseteq (1..Len(req[r].kinds)) \ DOMAIN signed[r]
+    /\ LET sigs == Map(LAMBDA i : Produced(req[r], i, dom[r]), idx)   \* what the group call returns, in group order
+       IN signed' = [signed EXCEPT ![r] = [i \in DOMAIN signed[r] \cup Range(idx) |->
+                        IF i \in DOMAIN signed[r] THEN signed[r][i]
+                        ELSE sigs[CHOOSE j \in 1..Len(idx) : idx[j] = i]]]   \* the index map
+    /\ UNCHANGED <<fork, pc, req, domreqs, dom, result>>
 
 \* what the code does: the two groups of the split, one call (or one loop) each
-SignGroup(g) ==
-    /\ pc = "sign"
-    /\ Len(Groups(req.kinds)[g]) >= 1
-    /\ SignSome(Groups(req.kinds)[g])
+SignGroup(r, g) ==
+    /\ pc[r] = "sign"
+    /\ Len(Groups(req[r].kinds)[g]) >= 1
+    /\ SignSome(r, Groups(req[r].kinds)[g])
 
-SignerFails ==
-    /\ pc = "sign"
-    /\ req.fail = "signer"
-    /\ pc' = "failed"
-    /\ UNCHANGED <<req, domreqs, signed, result>>
+SignerFails(r) ==
+    /\ pc[r] = "sign"
+    /\ req[r].fail = "signer"
+    /\ pc' = [pc EXCEPT ![r] = "failed"]
+    /\ UNCHANGED <<fork, req, domreqs, dom, signed, result>>
 
-Return ==
-    /\ pc = "sign"
-    /\ DOMAIN signed = 1..Len(req.kinds)
-    /\ result' = [i \in 1..Len(req.kinds) |-> signed[i]]
-    /\ pc' = "done"
-    /\ UNCHANGED <<req, domreqs, signed>>
+Return(r) ==
+    /\ pc[r] = "sign"
+    /\ DOMAIN signed[r] = 1..Len(req[r].kinds)
+    /\ result' = [result EXCEPT ![r] = [i \in 1..Len(req[r].kinds) |-> signed[r][i]]]
+    /\ pc' = [pc EXCEPT ![r] = "done"]
+    /\ UNCHANGED <<fork, req, domreqs, dom, signed>>
 
-ReturnErr ==
-    /\ pc = "failed"
-    /\ result' = <<>>
-    /\ pc' = "error"
-    /\ UNCHANGED <<req, domreqs, signed>>
+ReturnErr(r) ==
+    /\ pc[r] = "failed"
+    /\ result' = [result EXCEPT ![r] = <<>>]
+    /\ pc' = [pc EXCEPT ![r] = "error"]
+    /\ UNCHANGED <<fork, req, domreqs, dom, signed>>
 
 Next ==
-    \/ \E c \in Calls : Call(c)
-    \/ FetchDomain \/ RefetchDomain
-    \/ \E g \in {1, 2} : SignGroup(g)
-    \/ SignerFails
-    \/ Return \/ ReturnErr
+    \/ \E r \in Rids, c \in Calls : Call(r, c)
+    \/ \E r \in Rids :
+          \/ FetchDomain(r) \/ RefetchDomain(r) \/ DomainResp(r) \/ Recall(r)
+          \/ \E g \in {1, 2} : SignGroup(r, g)
+          \/ SignerFails(r)
+          \/ Return(r) \/ ReturnErr(r)
 
 Spec == Init /\ [][Next]_vars
 
 -----------------------------------------------------------------------------
 TypeOK ==
-    /\ pc \in {"idle", "domain", "sign", "failed", "done", "error"}
-    /\ DOMAIN signed \subseteq 1..MaxBatch
+    /\ fork \in Int
+    /\ \A r \in Rids :
+          /\ pc[r] \in {"idle", "called", "waiting", "sign", "failed", "done", "error"}
+          /\ DOMAIN signed[r] \subseteq 1..MaxBatch
 
 \* C06: the domain asked for is the domain type of the duty at the fork of the duty's epoch (or the
 \* genesis domain for builder registrations), and nothing else is ever asked for
 DomainRight ==
-    \A k \in 1..Len(domreqs) :
-        /\ domreqs[k].type = SigSpec[req.op].dom
-        /\ domreqs[k].genesis = (req.op = "registration")
-        /\ domreqs[k].epoch = (CASE req.op = "registration" -> -1
-                                 [] req.op = "sync_root" -> req.epoch
-                                 [] OTHER -> req.slot \div SlotsPerEpoch)
+    \A r \in Rids : \A k \in 1..Len(domreqs[r]) :
+        /\ domreqs[r][k].type = SigSpec[req[r].op].dom
+        /\ domreqs[r][k].genesis = (req[r].op = "registration")
+        /\ domreqs[r][k].epoch = (CASE req[r].op = "registration" -> -1
+                                    [] req[r].op = "sync_root" -> req[r].epoch
+                                    [] OTHER -> req[r].slot \div SlotsPerEpoch)
+
+\* the chain's domain for request r, written without the helper operators
+OwnDomain(r) ==
+    [type |-> SigSpec[req[r].op].dom,
+     ver  |-> CASE req[r].op = "registration" -> "genesis"
+                [] req[r].op = "sync_root" -> (IF req[r].epoch < fork THEN "old" ELSE "new")
+                [] OTHER -> (IF req[r].slot \div SlotsPerEpoch < fork THEN "old" ELSE "new")]
+
+\* C06 over histories: the domain a request holds is a function of that request (and the chain) alone -
+\* no earlier or concurrent request, of whatever type or epoch, has any influence on it
+Memoryless ==
+    \A r \in Rids : req[r] # NoCall => dom[r] \in {NoDomain, OwnDomain(r)}
 
 \* C06: a reply carries one signature per account; position i is by account i's verification key,
-\* over message i, under the duty's domain (or is explicitly absent when the signer gave none)
+\* over message i, under the domain of the duty's own type and epoch (or is explicitly absent when the
+\* signer gave none)
 SigCorrect ==
-    pc = "done" =>
-        /\ Len(result) = Len(req.kinds)
-        /\ \A i \in 1..Len(result) :
-              \/ result[i] = Absent /\ req.fail = "nilsig" /\ req.failidx = i
-              \/ /\ result[i].key = <<i, VerKey(req.kinds[i])>>
-                 /\ result[i].msg = MsgOf(req, i)
-                 /\ result[i].dom = DomainReq(req)
+    \A r \in Rids : pc[r] = "done" =>
+        /\ Len(result[r]) = Len(req[r].kinds)
+        /\ \A i \in 1..Len(result[r]) :
+              \/ result[r][i] = Absent /\ req[r].fail = "nilsig" /\ req[r].failidx = i
+              \/ /\ result[r][i].key = <<i, VerKey(req[r].kinds[i])>>
+                 /\ result[r][i].msg = MsgOf(req[r], i)
+                 /\ result[r][i].dom = OwnDomain(r)
 
-\* C06: nothing is signed before the domain is known, and a failed domain fetch yields no signature
+\* C06: nothing is signed before the domain is known, and a failed request hands out no signature (a
+\* later domain request of the same call may fail after some positions were signed: none is returned)
 NoSignatureWithoutDomain ==
-    /\ (DOMAIN signed # {}) => Len(domreqs) >= 1
-    /\ (req # NoCall /\ req.fail = "domain") => (DOMAIN signed = {} /\ result = <<>>)
+    \A r \in Rids :
+        /\ (DOMAIN signed[r] # {}) => dom[r] # NoDomain
+        /\ pc[r] \in {"failed", "error"} => result[r] = <<>>
 
 \* an error reply carries no signatures
-ErrorHasNoSignatures == pc = "error" => result = <<>>
+ErrorHasNoSignatures == \A r \in Rids : pc[r] = "error" => result[r] = <<>>
 =============================================================================
